@@ -12,7 +12,10 @@
 // process put on http.DefaultClient), twins.go (certificates that agree in
 // everything but the key, called in both orders within one process), hosts.go
 // (the host of the C2 URL spelled as a name: root dot, case, IDN; reached
-// through a CONNECT proxy named by HTTPS_PROXY).
+// through a CONNECT proxy named by HTTPS_PROXY), cli.go (the command-line tool
+// lib/simpleshell/cmd/simpleshell built with and without compile-time values and
+// run as a child process: flag × environment variable × compile-time value, the
+// oracle applied to the effective fingerprint by the documented precedence).
 package c13
 
 import (
@@ -730,8 +733,9 @@ func (l monListener) Accept() (net.Conn, error) {
 		if err != nil {
 			return nil, err
 		}
-		if !ownSocket(c.RemoteAddr()) {
-			// not a client of this process (see ownSocket): not part of any call
+		if !ownSocket(c.RemoteAddr()) && !toolSocket(c) {
+			// not a client of this process (see ownSocket) nor of a command-line tool it is
+			// running (cli.go): not part of any call
 			foreignConns.Add(1)
 			ep.logf("connection from %s, which is no socket of this process: ignored", c.RemoteAddr())
 			c.Close()
@@ -2167,6 +2171,10 @@ func Child(args []string) int {
 			return 2
 		}
 	}
+	if engine == "cli" {
+		w.runCLI(start, count)
+		count = 0
+	}
 	for i := start; i < start+count; i++ {
 		switch engine {
 		case "single":
@@ -2263,7 +2271,7 @@ type batch struct {
 }
 
 func Run(r *mon.Run) {
-	r.Rule = "every call to simpleshell.Go (EchoShell) is made in a child process against a listener created for that call alone, so that TCP accepts, client hellos, completed handshakes, application bytes, handler runs and echoed tokens are attributed to one call. Servers: raw crypto/tls listeners answering HTTP/1.1 by hand (log handshake-done / first-application-byte) and net/http servers (HTTP/2 or 1.1, full duplex, header flushed at once); TLS 1.2 or 1.3; identities = fresh P-256 keys, self-signed with chains of 1–3 certificates (extras are unrelated self-signed P-256/Ed25519 certificates), plus leaves signed by a harness CA that the children trust through SSL_CERT_FILE (valid / wrong SAN / expired / signed by an untrusted CA). Engines: single = every key × every spelling class (" + strconv.Itoa(len(spellAll)) + " classes: exact, prefixed, match at chain position 1/2, non-canonical padding bits, CR/LF, other server's pin, single-bit flips in either half, certificate hash, double prefix, no padding, URL alphabet, 31/33 bytes, hex, prefix only, garbage, spaces, …, no fingerprint; and white space: " + strconv.Itoa(len(spellBlank)) + " whitespace-only strings - one space / tab / LF / CR / CRLF / NBSP, 2–52 spaces, PRNG mixes of space, tab, CR, LF, VT, FF, NBSP, NEL, em and ideographic space, sha256// followed by nothing but such - and " + strconv.Itoa(len(spellWhitespace)-len(spellBlank)) + " forms of a pin with white space around it - LF / CRLF / tab / NBSP / space / PRNG mixes before, after or on both sides of this server's or another server's pin, between or before the prefix), one key per process in PRNG order; seq = PRNG sequences of 2–6 calls (30% right, 20% wrong, 13% malformed, 4% whitespace-only, 3% whitespace-padded, 30% un-pinned; 60% self-signed / 20% CA-valid / 20% CA-invalid servers, every second white-space call against a CA-valid server, where being taken for 'no fingerprint' shows as an exchange), 10 sequences per process; conc = 2–8 such calls released together by a barrier, 5 sets per process, every deviating call repeated alone; same = 2–5 calls of one process against ONE listener (right then wrong pin, wrong-right-wrong, malformed and un-pinned in between; 7 patterns, 7 sequences per process), every second process of this engine first configured like an application that wants TLS session resumption (http.DefaultTransport.TLSClientConfig = &tls.Config{ClientSessionCache: LRU}, set before the transport's first use and before every snapshot; un-pinned calls keep ordinary validation), and after each sequence the harness's own TLS client shows that the listener does let a second connection resume a session (TLS 1.2 and 1.3); ca = a fixed script (un-pinned round over all identity classes, pinned calls, three whitespace-only and three whitespace-padded fingerprints (PRNG choice) against CA-valid servers, un-pinned round, concurrent mix, un-pinned round), one script per process. PROCESS CONFIGURATION: before its first call a child process puts on http.DefaultClient what an embedding application may have put there - stock (Transport nil); an *http.Transport of its own: &http.Transport{}, a Clone of http.DefaultTransport, one with its own TLSClientConfig (RootCAs = the trusted CA, ServerName 127.0.0.1, MinVersion) and timeouts, one with a Proxy func returning nil, a Clone with DisableKeepAlives; a RoundTripper that is not an *http.Transport around a Clone; http.DefaultClient replaced by &http.Client{Timeout, Jar} without and with a transport of its own - a function of (engine, batch number): every second process of seq / conc / single and of same (those without session cache), and all ca processes but the first, are configured (" + strconv.Itoa(len(clientConfigs)) + " configurations); under every configuration ordinary validation is what the oracle assumes (roots = the harness CA, name = 127.0.0.1), so the oracle of a call stays a function of its own chain and fingerprint. In every engine one call in four spells the scheme of its C2 URL HTTPS://, Https:// or hTTpS:// (PRNG). Oracle of a call = function of its own presented chain and fingerprint string only: un-pinned ⇒ accept iff the leaf chains to the trusted CA, names 127.0.0.1 and is in date (by construction); pinned ⇒ strip one sha256// prefix, decode as RFC 4648 standard base64 (harness decoder cross-checked against encoding/base64), 32 bytes else refuse outright (no TCP connection may reach the server), accept iff equal to SHA-256 of the SubjectPublicKeyInfo of SOME presented certificate, else refuse with zero application bytes. Negative observations are read after a probe connection of the harness has been accepted behind the call's own connections and all server-side handlers have ended. Snapshot before and after every call (around the whole set for concurrent calls) of http.DefaultClient (identity, Transport, CheckRedirect, Jar, Timeout), of every exported field of http.DefaultTransport and of the *http.Transport the process put on http.DefaultClient (also inside the wrapper, also when it is no longer where the process put it) - scalars by value, functions / pointers / interfaces by identity, maps by identity and keys, slices by identity, length and elements - and of every exported field of their TLSClientConfig (deep: InsecureSkipVerify, VerifyConnection, RootCAs, ServerName, NextProtos, Min/MaxVersion, ClientSessionCache, …); in every process the monitor first passes a positive control on a throw-away clone (TLS configuration replaced, edited in place, ForceAttemptHTTP2 flipped: each must be reported). CERTIFICATE CONTENT (engine twin): besides the identities above, " + strconv.Itoa(r.N(4, 16)) + " twin groups of servers whose certificates agree AT EVERY CHAIN POSITION in everything but the key - subject, issuer, serial number, validity, names, Subject Key Identifier, Authority Key Identifier (read back from the DER and verified in every process: twin_groups_verified) - self-signed leaves or leaves issued by the trusted CA resp. by a home-made CA certificate copying the trusted CA's subject, serial number and Subject Key Identifier; chains of 1-3; identifier = RFC 5280 method 1 of the real key or 8 / 20 freely chosen bytes; members real, clone, (clone2), and recert = the real KEY under a certificate with other subject, serial number and identifier. 8 sequences per process, all groups in turn, 8 patterns: real server first then the clone under the real pin and the clone's own; the clone first then the real server under its own pin; a refused handshake first; the same key under the other certificate; the pin of the second certificate of the chain; un-pinned and malformed calls in between; a barrier-released concurrent set over the group followed by a sequence; PRNG sequences of 3-6 calls over (member, pin of member, chain position). Counted: wrong-key pins configured after a handshake with the pin's owner in the same process, own-key pins after a handshake with a twin. C2 HOST SPELLING (engine host): the host of the C2 URL is a NAME instead of the listener's IP literal, " + strconv.Itoa(len(hostKinds)) + " kinds (" + strings.Join(hostKinds, ", ") + "): PRNG labels under " + hostZone + ", the single labels c13host and localhost, internationalised labels in Unicode and in xn-- spelling (table of " + strconv.Itoa(len(idnLabels)) + "), each plain, with the root dot, in PRNG mixed case; names are not resolved: the processes of this engine have HTTPS_PROXY=http://127.0.0.1:port in their environment (set before net/http first reads it), a plain CONNECT proxy run by the harness in the same process that tunnels to 127.0.0.1:<port of the request> and records the request (localhost is exempt from proxies by net/http and is connected to directly, /etc/hosts). One sequence = 7 calls to hosts of one kind in PRNG order: matching pin and wrong pin against self-signed servers, wrong pin and no fingerprint and matching pin (of the second certificate where there is one) against CA-valid servers whose certificates name *." + hostZone + ", c13host, localhost, no fingerprint against a self-signed server, a malformed fingerprint; 7 sequences per process, processes configured in turn with the " + strconv.Itoa(len(proxyHonouringConfigs)) + " client configurations whose transport consults the environment for a proxy. The listener records the server name of every client hello: counted are the calls in which it differs from the host as the URL spells it (root dot dropped by crypto/tls, Unicode label turned into an A-label by net/http) - the harness's own canonical form of the name (one root dot removed, ASCII lower case, table) must agree with the CONNECT target and with the client hello, else inconclusive. Oracle unchanged for pinned calls (the host is not looked at); an un-pinned call to a name is accepted iff the chain is valid AND the certificate names the host. " + longRule(r) + " distinct_nontrivial = distinct call shapes (spelling class, identity class, chain length, match position, server kind, protocol, TLS version, expected outcome) plus distinct sequence / set shapes (the ordered resp. sorted list of call shapes)"
+	r.Rule = "every call to simpleshell.Go (EchoShell) is made in a child process against a listener created for that call alone, so that TCP accepts, client hellos, completed handshakes, application bytes, handler runs and echoed tokens are attributed to one call. Servers: raw crypto/tls listeners answering HTTP/1.1 by hand (log handshake-done / first-application-byte) and net/http servers (HTTP/2 or 1.1, full duplex, header flushed at once); TLS 1.2 or 1.3; identities = fresh P-256 keys, self-signed with chains of 1–3 certificates (extras are unrelated self-signed P-256/Ed25519 certificates), plus leaves signed by a harness CA that the children trust through SSL_CERT_FILE (valid / wrong SAN / expired / signed by an untrusted CA). Engines: single = every key × every spelling class (" + strconv.Itoa(len(spellAll)) + " classes: exact, prefixed, match at chain position 1/2, non-canonical padding bits, CR/LF, other server's pin, single-bit flips in either half, certificate hash, double prefix, no padding, URL alphabet, 31/33 bytes, hex, prefix only, garbage, spaces, …, no fingerprint; and white space: " + strconv.Itoa(len(spellBlank)) + " whitespace-only strings - one space / tab / LF / CR / CRLF / NBSP, 2–52 spaces, PRNG mixes of space, tab, CR, LF, VT, FF, NBSP, NEL, em and ideographic space, sha256// followed by nothing but such - and " + strconv.Itoa(len(spellWhitespace)-len(spellBlank)) + " forms of a pin with white space around it - LF / CRLF / tab / NBSP / space / PRNG mixes before, after or on both sides of this server's or another server's pin, between or before the prefix), one key per process in PRNG order; seq = PRNG sequences of 2–6 calls (30% right, 20% wrong, 13% malformed, 4% whitespace-only, 3% whitespace-padded, 30% un-pinned; 60% self-signed / 20% CA-valid / 20% CA-invalid servers, every second white-space call against a CA-valid server, where being taken for 'no fingerprint' shows as an exchange), 10 sequences per process; conc = 2–8 such calls released together by a barrier, 5 sets per process, every deviating call repeated alone; same = 2–5 calls of one process against ONE listener (right then wrong pin, wrong-right-wrong, malformed and un-pinned in between; 7 patterns, 7 sequences per process), every second process of this engine first configured like an application that wants TLS session resumption (http.DefaultTransport.TLSClientConfig = &tls.Config{ClientSessionCache: LRU}, set before the transport's first use and before every snapshot; un-pinned calls keep ordinary validation), and after each sequence the harness's own TLS client shows that the listener does let a second connection resume a session (TLS 1.2 and 1.3); ca = a fixed script (un-pinned round over all identity classes, pinned calls, three whitespace-only and three whitespace-padded fingerprints (PRNG choice) against CA-valid servers, un-pinned round, concurrent mix, un-pinned round), one script per process. PROCESS CONFIGURATION: before its first call a child process puts on http.DefaultClient what an embedding application may have put there - stock (Transport nil); an *http.Transport of its own: &http.Transport{}, a Clone of http.DefaultTransport, one with its own TLSClientConfig (RootCAs = the trusted CA, ServerName 127.0.0.1, MinVersion) and timeouts, one with a Proxy func returning nil, a Clone with DisableKeepAlives; a RoundTripper that is not an *http.Transport around a Clone; http.DefaultClient replaced by &http.Client{Timeout, Jar} without and with a transport of its own - a function of (engine, batch number): every second process of seq / conc / single and of same (those without session cache), and all ca processes but the first, are configured (" + strconv.Itoa(len(clientConfigs)) + " configurations); under every configuration ordinary validation is what the oracle assumes (roots = the harness CA, name = 127.0.0.1), so the oracle of a call stays a function of its own chain and fingerprint. In every engine one call in four spells the scheme of its C2 URL HTTPS://, Https:// or hTTpS:// (PRNG). Oracle of a call = function of its own presented chain and fingerprint string only: un-pinned ⇒ accept iff the leaf chains to the trusted CA, names 127.0.0.1 and is in date (by construction); pinned ⇒ strip one sha256// prefix, decode as RFC 4648 standard base64 (harness decoder cross-checked against encoding/base64), 32 bytes else refuse outright (no TCP connection may reach the server), accept iff equal to SHA-256 of the SubjectPublicKeyInfo of SOME presented certificate, else refuse with zero application bytes. Negative observations are read after a probe connection of the harness has been accepted behind the call's own connections and all server-side handlers have ended. Snapshot before and after every call (around the whole set for concurrent calls) of http.DefaultClient (identity, Transport, CheckRedirect, Jar, Timeout), of every exported field of http.DefaultTransport and of the *http.Transport the process put on http.DefaultClient (also inside the wrapper, also when it is no longer where the process put it) - scalars by value, functions / pointers / interfaces by identity, maps by identity and keys, slices by identity, length and elements - and of every exported field of their TLSClientConfig (deep: InsecureSkipVerify, VerifyConnection, RootCAs, ServerName, NextProtos, Min/MaxVersion, ClientSessionCache, …); in every process the monitor first passes a positive control on a throw-away clone (TLS configuration replaced, edited in place, ForceAttemptHTTP2 flipped: each must be reported). CERTIFICATE CONTENT (engine twin): besides the identities above, " + strconv.Itoa(r.N(4, 16)) + " twin groups of servers whose certificates agree AT EVERY CHAIN POSITION in everything but the key - subject, issuer, serial number, validity, names, Subject Key Identifier, Authority Key Identifier (read back from the DER and verified in every process: twin_groups_verified) - self-signed leaves or leaves issued by the trusted CA resp. by a home-made CA certificate copying the trusted CA's subject, serial number and Subject Key Identifier; chains of 1-3; identifier = RFC 5280 method 1 of the real key or 8 / 20 freely chosen bytes; members real, clone, (clone2), and recert = the real KEY under a certificate with other subject, serial number and identifier. 8 sequences per process, all groups in turn, 8 patterns: real server first then the clone under the real pin and the clone's own; the clone first then the real server under its own pin; a refused handshake first; the same key under the other certificate; the pin of the second certificate of the chain; un-pinned and malformed calls in between; a barrier-released concurrent set over the group followed by a sequence; PRNG sequences of 3-6 calls over (member, pin of member, chain position). Counted: wrong-key pins configured after a handshake with the pin's owner in the same process, own-key pins after a handshake with a twin. C2 HOST SPELLING (engine host): the host of the C2 URL is a NAME instead of the listener's IP literal, " + strconv.Itoa(len(hostKinds)) + " kinds (" + strings.Join(hostKinds, ", ") + "): PRNG labels under " + hostZone + ", the single labels c13host and localhost, internationalised labels in Unicode and in xn-- spelling (table of " + strconv.Itoa(len(idnLabels)) + "), each plain, with the root dot, in PRNG mixed case; names are not resolved: the processes of this engine have HTTPS_PROXY=http://127.0.0.1:port in their environment (set before net/http first reads it), a plain CONNECT proxy run by the harness in the same process that tunnels to 127.0.0.1:<port of the request> and records the request (localhost is exempt from proxies by net/http and is connected to directly, /etc/hosts). One sequence = 7 calls to hosts of one kind in PRNG order: matching pin and wrong pin against self-signed servers, wrong pin and no fingerprint and matching pin (of the second certificate where there is one) against CA-valid servers whose certificates name *." + hostZone + ", c13host, localhost, no fingerprint against a self-signed server, a malformed fingerprint; 7 sequences per process, processes configured in turn with the " + strconv.Itoa(len(proxyHonouringConfigs)) + " client configurations whose transport consults the environment for a proxy. The listener records the server name of every client hello: counted are the calls in which it differs from the host as the URL spells it (root dot dropped by crypto/tls, Unicode label turned into an A-label by net/http) - the harness's own canonical form of the name (one root dot removed, ASCII lower case, table) must agree with the CONNECT target and with the client hello, else inconclusive. Oracle unchanged for pinned calls (the host is not looked at); an un-pinned call to a name is accepted iff the chain is valid AND the certificate names the host. " + longRule(r) + cliRule + " distinct_nontrivial = distinct call shapes (spelling class, identity class, chain length, match position, server kind, protocol, TLS version, expected outcome) plus distinct sequence / set shapes (the ordered resp. sorted list of call shapes)"
 	r.Assumptions = []string{
 		"keys are fresh per run (crypto/rand); the seed fixes the shape of every case (identity index, spelling class, bit position, server kind, order), not the key bytes",
 		"CR and LF inside a fingerprint are skipped as RFC 4648 decoders commonly do (encoding/base64 does); for such strings both 'refused outright' and 'treated as the stripped string' are accepted",
@@ -2278,7 +2286,8 @@ func Run(r *mon.Run) {
 		"a web proxy named by HTTPS_PROXY (scheme http://, i.e. a plain CONNECT proxy) is process environment the library is not responsible for; the CONNECT request to it is not shell traffic and is not judged; 'server' stays the TLS listener at the other end of the tunnel: a malformed fingerprint must not produce a connection to it (hence no CONNECT either), a mismatching one no application byte. The proxy stands in for name resolution only (every name is 127.0.0.1, the port selects the listener)",
 		"names: host names are case-insensitive, a trailing root dot and the Unicode / xn-- spellings of a label name the same host (RFC 3986 §3.2.2, RFC 6125 §6.4, RFC 5891); crypto/x509 matches certificate names that way, which is what 'ordinary certificate validation' means for an un-pinned call. The idn-unicode-mixedcase kind is offered HTTP/1.1 only: go1.23's net/http cannot complete an HTTP/2 request to a non-ASCII host that is not in lower case (its HTTP/1 layer and its HTTP/2 connection pool disagree on the A-label and it redials until cancelled), with or without a fingerprint",
 		longAssumption,
-		"replaying a case re-runs the whole batch that shared its process (≤10 sequences / 5 sets / one key / 8 twin sequences / 7 host sequences / 4 long-chain sequences), because the property is about process history",
+		cliAssumption,
+		"replaying a case re-runs the whole batch that shared its process (≤10 sequences / 5 sets / one key / 8 twin sequences / 7 host sequences / 4 long-chain sequences / all cases of the cli engine that use the same build of the tool), because the property is about process history",
 	}
 	nSelf, nCA := r.N(8, 64), r.N(3, 9)
 	nTwin := r.N(4, 16)
@@ -2348,6 +2357,13 @@ func Run(r *mon.Run) {
 	add("host", r.N(len(hostKinds)*3, len(hostKinds)*50), 7)
 	longPer := r.N(2, 5) // sequences per long-chain identity
 	add("long", len(longIDs)*longPer, longPerProcess)
+	if nCLI := len(cliCombos(r)); nCLI > 0 {
+		// first in the queue: it builds the tool while the other processes run
+		saved := batches
+		batches = nil
+		add("cli", nCLI, nCLI)
+		batches = append(batches, saved...)
+	}
 	var died atomic.Int64
 	// at most 8 processes at a time: every call leaves one or two connections in
 	// TIME-WAIT for a minute, and the machine's ephemeral ports are a shared budget
@@ -2427,6 +2443,7 @@ func Run(r *mon.Run) {
 	r.Floor("malformed_host_calls", int64(r.N(35, 600)))
 
 	longFloors(r, longIDs, longPer)
+	cliFloors(r)
 
 	r.Floor("calls", int64(r.N(600, 15000)))
 	r.Floor("accepts_expected", int64(r.N(150, 4000)))
